@@ -205,6 +205,17 @@ func DrawCorruptMask(t *rapid.T, label string, md protoreflect.MessageDescriptor
 		}
 	}
 	cands = append(cands, cand{"nope", "unknown", false}, cand{"", "empty-path", false}, cand{"nope.deeper", "unknown", false})
+	// one "path" that is really two valid paths glued together with the separator of the textual form, and other near
+	// misses of valid paths
+	if fields.Len() >= 2 {
+		a, b := fields.Get(0), fields.Get(fields.Len()-1)
+		cands = append(cands,
+			cand{string(a.Name()) + "," + string(b.Name()), "comma-joined", mr.Has(a) || mr.Has(b)},
+			cand{string(a.Name()) + " ", "trailing-space", mr.Has(a)},
+			cand{"." + string(a.Name()), "leading-dot", mr.Has(a)},
+			cand{string(a.Name()) + ".", "trailing-dot", mr.Has(a)},
+			cand{strings.ToUpper(string(a.Name())), "upper-case", mr.Has(a)})
+	}
 	var popCands []cand
 	for _, c := range cands {
 		if c.pop {
